@@ -30,6 +30,7 @@ def step (st : St) (line : String) : St × String :=
   | "scope" :: rest => (st, handleScope rest)
   | "scopespec" :: rest => (st, handleScopeSpec rest)
   | "alias" :: rest => (st, handleAlias rest)
+  | "d2a" :: rest => (st, handleD2a rest)
   | "reset" :: _ => ({ st with db := [] }, "-")
   | "open" :: _ => (st, "open e=0")
   | "get" :: rest =>
